@@ -354,6 +354,13 @@ def _export_jobs(jobs, path, copytree):
     # Determine export path for each job.
     paths = {job.path: path_function(job) for job in jobs}
 
+    # All data must be exported to locations beneath the target.
+    for dst in paths.values():
+        if os.path.isabs(dst) or os.path.normpath(dst).split(os.sep)[0] == os.pardir:
+            raise RuntimeError(
+                f"The path '{dst}' is not located within the export target."
+            )
+
     # Check leaf/node consistency
     _check_directory_structure_validity(paths.values())
 
